@@ -855,6 +855,30 @@ def counted_chunks(run, m, F):
                         elif m.has(t) and m.is_lib(m.func(t)) and ai < m.func(t).nargs and m.func(t).params[ai]['ty'].endswith('*'):
                             work.append((m.func(t), ai))
         run.ob('R17.8', short(f.dem), not bad, bad[0] if bad else 'the data pointer goes to counted hand-overs only', loc=fn_loc(f), disc='counted chunk')
+    # append_char(ch, count) is a run of `count` units of ch, and ch can be 0 ({c} of the value 0): a run that the member builds in a
+    # buffer of its own and hands to a sink that takes nothing but a NUL-terminated string (fputs, puts, fputws) arrives empty for
+    # ch == 0, while the other sinks receive `count` NULs.  A literal handed to such a sink is not a run built from ch.  Expected: zero.
+    for name in F.lib:
+        f = m.func(name)
+        mt = WRITER_RE.match(f.dem)
+        if not mt or mt.group(3) != 'append_char':
+            continue
+        n += 1
+        bad, und = [], []
+        for (i, ts, k) in F.calls.get(f.name, ()):
+            for t in ts:
+                if t.split('@')[0] not in ('fputs', 'puts', 'fputws', 'fputs_unlocked') or not i.a:
+                    continue
+                a = i.a[0]
+                roots = pointer_roots(m, f, a) if isinstance(a, list) and a and a[0] == 'v' else set([('const',)])
+                if ('other', 'alloca') in roots:
+                    bad.append('emits the run through %s (line %d) from a buffer of its own: the sink reads a NUL-terminated string, so a run of NUL '
+                               'characters - append_char(0, count), what {c} of the value 0 asks for - arrives empty while the other sinks receive '
+                               'count units' % (t.split('@')[0], i.line))
+                elif roots != set([('const',)]):
+                    und.append('hands %s a string whose origin is not decided (line %d)' % (t.split('@')[0], i.line))
+        run.ob('R17.8', short(f.dem), False if bad else (None if und else True), bad[0] if bad else (und[0] if und else
+               'no run built from the character goes to a sink that takes only a NUL-terminated string'), loc=fn_loc(f), disc='run of a character')
     return n
 
 
